@@ -87,4 +87,66 @@ theorem NEG_later_construct_leaks :
     spec scan A = (1, 10, 100) := by
   decide
 
+/-- the configuration an operation's manager was constructed with -/
+def opCfg : Op σ β τ → σ × β
+  | .construct m => (m.settings, m.blData)
+  | .run m => (m.settings, m.blData)
+
+/-- what the property demands of a whole history: constructions are silent, every run is the run of a fresh process -/
+def specHist (scan : Scan σ β τ ρ) (hist : List (Op σ β τ)) : List (Option ρ) :=
+  hist.map fun | .construct _ => none | .run m => some (spec scan m)
+
+/-- **One configuration per process ⇒ every history is right** (the command line, and any embedding that scans with a single configuration): if every
+manager of a history — whatever its test selection — carries the same settings and blacklist data, and the shared objects are untouched or hold that
+configuration, then every run of the history, in any order and any number of times, equals the run of a fresh process.  The guard of `sequence_partial`
+holds at every step of such a history. -/
+theorem single_config_history (scan : Scan σ β τ ρ) (c : σ × β) (s : Shared σ β) (hist : List (Op σ β τ))
+    (hs : (s.settings = none ∨ s.settings = some c.1) ∧ (s.blData = none ∨ s.blData = some c.2))
+    (h : ∀ op ∈ hist, opCfg op = c) :
+    exec scan s hist = specHist scan hist := by
+  induction hist generalizing s with
+  | nil => rfl
+  | cons op ops ih =>
+    have hop : opCfg op = c := h op (by simp)
+    have hrest : ∀ o ∈ ops, opCfg o = c := fun o ho => h o (by simp [ho])
+    cases op with
+    | construct m =>
+      simp only [exec, step, specHist, List.map_cons]
+      simp only [opCfg] at hop
+      have := ih { settings := some m.settings, blData := some m.blData } (by simp [← hop]) hrest
+      simpa [specHist] using this
+    | run m =>
+      simp only [exec, step, specHist, List.map_cons]
+      simp only [opCfg] at hop
+      have e1 : s.settings.getD m.settings = m.settings := by
+        rcases hs.1 with h1 | h1 <;> simp [h1, ← hop]
+      have e2 : s.blData.getD m.blData = m.blData := by
+        rcases hs.2 with h1 | h1 <;> simp [h1, ← hop]
+      have := ih s hs hrest
+      simp only [e1, e2, spec]
+      simpa [specHist, spec] using this
+
+/-- **the last construction decides**: after any history ending in the construction of `m`, the shared objects hold exactly `m`'s settings and
+blacklist data — nothing earlier survives -/
+theorem last_construct_wins (s : Shared σ β) (hist : List (Op σ β τ)) (m : Mgr σ β τ) :
+    after s (hist ++ [.construct m]) = { settings := some m.settings, blData := some m.blData } := by
+  induction hist generalizing s with
+  | nil => rfl
+  | cons op ops ih => cases op <;> simp only [List.cons_append, after] <;> exact ih _
+
+/-- **a run can be repeated**: running the same manager twice in a row gives the same result twice, whatever came before -/
+theorem rerun_same_result (scan : Scan σ β τ ρ) (s : Shared σ β) (hist : List (Op σ β τ)) (m : Mgr σ β τ) :
+    ∃ r, exec scan s (hist ++ [.run m, .run m]) = exec scan s hist ++ [some r, some r] := by
+  rw [exec_append]
+  exact ⟨_, rfl⟩
+
+/-- non-vacuity: a history with three managers of one configuration and different selections, runs interleaved with constructions -/
+example :
+    let scan : Scan Nat Nat Nat (Nat × Nat × Nat) := fun t s b => (t, s, b)
+    let A : Mgr Nat Nat Nat := ⟨1, 10, 100⟩
+    let B : Mgr Nat Nat Nat := ⟨2, 10, 100⟩
+    exec scan {} [.run A, .construct A, .construct B, .run A, .run B, .run A]
+      = specHist scan [.run A, .construct A, .construct B, .run A, .run B, .run A] := by
+  decide
+
 end Props.C08
